@@ -106,9 +106,17 @@ func TestCheck(t *testing.T) {
 		// history independence: column character sets written the short way are resolved through driver tables that are
 		// loaded lazily, once per driver; a case that needs one table runs after a case that needed the other, and both
 		// are compared with fresh processes that have no history
-		sites := c02.Sites("mysql", c02.Base("mysql"))
-		pool = append(pool, Case{Dialect: "mysql", Short: 2, Edits: []c02.EditRef{sites[1].E}}, Case{Dialect: "mysql", Short: 1, Edits: []c02.EditRef{sites[1].E}},
-			Case{Dialect: "mysql", Short: 3, Edits: []c02.EditRef{sites[2].E}})
+		// (chosen by kind, not by position: the catalogue grows)
+		first := func(kind string) c02.EditRef {
+			for _, s := range c02.Sites("mysql", c02.Base("mysql")) {
+				if s.E.Kind == kind {
+					return s.E
+				}
+			}
+			panic("no site of kind " + kind)
+		}
+		pool = append(pool, Case{Dialect: "mysql", Short: 2, Edits: []c02.EditRef{first("add-column")}}, Case{Dialect: "mysql", Short: 1, Edits: []c02.EditRef{first("add-column")}},
+			Case{Dialect: "mysql", Short: 3, Edits: []c02.EditRef{first("drop-indexed-column")}})
 	}
 	for _, d := range []string{"mysql", "postgres", "sqlite"} {
 		sites := c02.Sites(d, c02.Base(d))
